@@ -432,7 +432,10 @@ func (p *Processor) processConnectAttempt(rep ConnectAttempt) {
 			app.state = AppStateInvalidLicense
 			log.Warnf("app '%s' connect attempt returned %s; shutting down", app, collector.NewRPMResponseError(rep.RawReply.Err).Err)
 		} else {
-			app.state = AppStateRestart
+			// Nothing ever leaves AppStateRestart for an application that has
+			// no run: go back to the unknown state so that the connect is
+			// attempted again after the back-off, like any other failure.
+			app.state = AppStateUnknown
 			log.Warnf("app '%s' connect attempt returned %s; restarting", app, collector.NewRPMResponseError(rep.RawReply.Err).Err)
 		}
 		return
